@@ -443,6 +443,23 @@ theorem setElevation_eq_pyramid_single_one (fuel : Nat) (s : Nat) (b e : Int) (x
 example : (setElevation true (elevFuel (flat 3 1)) (flat 3 1) 2 0 0 none none).map
     (fun m => m.tiles.map (·.elevation)) = .ok (pyramid 3 1 2 0 0 0 0) := by decide +kernel
 
+/-- **operational_smooth_one_level**: the smoothness clause as a theorem about the *operational* model (not only the
+closed form) for steps of one level: after raising or lowering a rectangle of more than one tile by one level on a
+flat map, any two tiles that touch (diagonals included) differ by at most one level -/
+theorem operational_smooth_one_level (fs : Bool) (fuel : Nat) (s : Nat) (b e : Int) (x1 y1 x2 y2 : Nat) (m' : Map)
+    (hx : x1 ≤ x2) (hx2 : x2 < s) (hy : y1 ≤ y2) (hy2 : y2 < s) (hns : ¬ (x1 = x2 ∧ y1 = y2))
+    (he : e = b - 1 ∨ e = b + 1)
+    (h : setElevation fs fuel (flat s b) e x1 y1 (some (x2 : Int)) (some (y2 : Int)) = .ok m')
+    (x y x' y' : Nat) (hxs : x < s) (hys : y < s) (hxs' : x' < s) (hys' : y' < s)
+    (nx : x ≤ x' + 1 ∧ x' ≤ x + 1) (ny : y ≤ y' + 1 ∧ y' ≤ y + 1) :
+    ∃ u v, (m'.tiles.map (·.elevation))[x + y * s]? = some u ∧ (m'.tiles.map (·.elevation))[x' + y' * s]? = some v ∧
+      u - v ≤ 1 ∧ v - u ≤ 1 := by
+  rcases he with rfl | rfl
+  · rw [setElevation_eq_pyramid_lower_one fs fuel s b x1 y1 x2 y2 m' hx hx2 hy hy2 hns h]
+    exact pyramid_map_smooth s b _ x1 y1 x2 y2 x y x' y' hxs hys hxs' hys' nx ny
+  · rw [setElevation_eq_pyramid_raise_one fs fuel s b x1 y1 x2 y2 m' hx hx2 hy hy2 hns h]
+    exact pyramid_map_smooth s b _ x1 y1 x2 y2 x y x' y' hxs hys hxs' hys' nx ny
+
 /-- non-vacuity of `setElevation_eq_pyramid_level`: the call returns on a flat 3×3 map of elevation 2 -/
 example : ((setElevation true (elevFuel (flat 3 2)) (flat 3 2) 2 0 0 (some 1) (some 1)).map
     (fun m => m.tiles.map (·.elevation))) = .ok (pyramid 3 2 2 0 0 1 1) := by decide +kernel
